@@ -116,7 +116,9 @@ func Generate(ctx context.Context, wd string, env []string, patterns []string, o
 			continue
 		}
 		if len(opts.Header) > 0 {
-			goSrc = append(opts.Header, goSrc...)
+			// Never write into the header's spare capacity: the header
+			// is shared by all packages.
+			goSrc = append(opts.Header[:len(opts.Header):len(opts.Header)], goSrc...)
 		}
 		fmtSrc, err := format.Source(goSrc)
 		if err != nil {
